@@ -1,6 +1,7 @@
 package main
 
 import (
+	"regexp"
 	"go/ast"
 	"encoding/json"
 	"flag"
@@ -25,6 +26,102 @@ type funcResult struct {
 }
 
 // verifyFunction generates all obligations of one function under contract.
+var unknownIdentRe = regexp.MustCompile(`unknown identifier (\w+)`)
+
+// rebindAliases is consulted by newVC (one verification unit at a time)
+var rebindAliases map[string]string
+
+func rebind(w *World, specs *Specs, tt *TypeTable, fn *ssa.Function, c *Contract, missing string) *funcResult {
+	cands := map[string]bool{}
+	var walk func(f *ssa.Function)
+	walk = func(f *ssa.Function) {
+		for _, b := range f.Blocks {
+			for _, ins := range b.Instrs {
+				switch x := ins.(type) {
+				case *ssa.DebugRef:
+					if obj := x.Object(); obj != nil {
+						if _, ok := obj.(*types.Var); ok {
+							cands[obj.Name()] = true
+						}
+					}
+				case *ssa.Alloc:
+					if x.Comment != "" {
+						cands[x.Comment] = true
+					}
+				}
+			}
+		}
+	}
+	walk(fn)
+	var good []*funcResult
+	var names []string
+	for _, cand := range sortedKeys(cands) {
+		if cand == missing || cand == "_" {
+			continue
+		}
+		rebindAliases = map[string]string{missing: cand}
+		r := verifyFunction(w, specs, tt, fn, c)
+		rebindAliases = nil
+		if r.Err == "" {
+			good = append(good, r)
+			names = append(names, cand)
+		}
+	}
+	if len(good) > 1 {
+		// several locals fit by type: the renamed one is the one the contract does not already mention
+		text := contractText(c)
+		var g2 []*funcResult
+		var n2 []string
+		for i, nm := range names {
+			if !regexp.MustCompile(`\b` + regexp.QuoteMeta(nm) + `\b`).MatchString(text) {
+				g2 = append(g2, good[i])
+				n2 = append(n2, nm)
+			}
+		}
+		good, names = g2, n2
+	}
+	if len(good) > 1 {
+		// still several: a rename usually keeps part of the name - take the unique candidate with the longest common prefix
+		best, bestLen, tie := -1, 2, false
+		for i, nm := range names {
+			l := 0
+			for l < len(nm) && l < len(missing) && nm[l] == missing[l] {
+				l++
+			}
+			if l > bestLen {
+				best, bestLen, tie = i, l, false
+			} else if l == bestLen && best >= 0 {
+				tie = true
+			}
+		}
+		if best >= 0 && !tie {
+			good, names = []*funcResult{good[best]}, []string{names[best]}
+		}
+	}
+	if len(good) != 1 {
+		return nil
+	}
+	good[0].Trust = append(good[0].Trust, fmt.Sprintf("REBOUND: the contract of %s names the local variable %s, which no longer exists; %s is the only local that makes the contract well-formed and was used instead", shortFuncKey(c.Key), missing, names[0]))
+	return good[0]
+}
+
+// contractText: the source lines of one contract (from its header to the next header) in its contract file.
+func contractText(c *Contract) string {
+	b, err := os.ReadFile(c.File)
+	if err != nil {
+		return ""
+	}
+	lines := strings.Split(string(b), "\n")
+	var out []string
+	for i := c.Line - 1; i >= 0 && i < len(lines); i++ {
+		if i > c.Line-1 && (strings.HasPrefix(lines[i], "//@ func ") || strings.HasPrefix(lines[i], "//@ method ") || strings.HasPrefix(lines[i], "//@ functype ")) {
+			break
+		}
+		out = append(out, lines[i])
+	}
+	return strings.Join(out, "\n")
+}
+
 // pathCoversOn: set by the thorough tier (and by GOVC_PATHCOVER=1)
 var pathCoversOn bool
 
@@ -65,6 +162,7 @@ func verifyFunction(w *World, specs *Specs, tt *TypeTable, fn *ssa.Function, c *
 		}
 	}
 	vc.pathCovers = pathCoversOn
+	vc.aliases = rebindAliases
 	vc.tparamsEnv = typeParamsOf(fn)
 	vc.findLoops()
 	vc.addAxioms()
@@ -428,7 +526,15 @@ func generate(o *options) (*runOutput, error) {
 			out.results = append(out.results, &funcResult{Key: key, Err: "UNBOUND: no function " + key + " in the current source"})
 			continue
 		}
-		out.results = append(out.results, verifyFunction(w, specs, tt, fn, c))
+		res := verifyFunction(w, specs, tt, fn, c)
+		if m := unknownIdentRe.FindStringSubmatch(res.Err); m != nil {
+			// a contract names a local variable that no longer exists (renamed in the source): if exactly one other
+			// local of the function makes the whole contract well-formed again, verify against that binding and say so
+			if alt := rebind(w, specs, tt, fn, c, m[1]); alt != nil {
+				res = alt
+			}
+		}
+		out.results = append(out.results, res)
 	}
 	if cr, err := runCensus(o, w, specs); err != nil {
 		return nil, err
